@@ -1,4 +1,4 @@
-(* C05: schedules on which the faithful model (Model/Cluster.v) - and, replayed by the c05 harness,
+(* C05: a schedule on which the faithful model (Model/Cluster.v) - and, replayed by the c05 harness,
    the real brokers - end with routing that differs from the ground truth although every link has
    drained and two rounds of full-state exchange have run. *)
 From stdpp Require Import gmap.
@@ -7,30 +7,19 @@ From Emitter Require Import Model.Lww Model.Cluster.
 Import ListNotations.
 Local Open Scope N_scope.
 
-Definition exchange2 : list ev := [EGossip 1 2; EGossip 2 1; EDeliver 1 2; EDeliver 2 1].
-
-(* F4 (with the coalescing of F8): broker 2's client subscribes and unsubscribes channel 2 before the
-   link to broker 1 sends; only the removal is sent; the later full state carries (add, del) of which
-   the add is new to broker 1 - Swarm.merge tests IsAdded on the DELTA (add, 0) and subscribes the
-   peer for a subscription that is gone: broker 1 forwards channel 2 to broker 2 for ever *)
-Definition f4_schedule : list ev :=
-  [ESub 2 3 2 1160; EUnsub 2 3 2 1220; EDeliver 2 1] ++ exchange2.
-Theorem C05_stale_add_refuted :
-  let w := run [1; 2] f4_schedule in
-  quiet w = true /\ bk_remote (get_broker w 1) = [(2, 2)] /\ truth_remote w 1 = [].
-Proof. vm_compute. repeat split. Qed.
-
-(* F7: broker 3 sees broker 2 go away while broker 2's client is subscribed to channel 1.
-   NotifyUnsubscribe overwrites the event's peer with the local id before Swarm.onPeerOffline deletes
-   "the dead peer's" event, so the tombstone is written under broker 3's own name.  Broker 3's own
-   client is subscribed to channel 1 too; when the tombstone reaches broker 1 with the full state it
-   decrements broker 3's counter for channel 1 and drops broker 3 from the routing: messages
-   published on broker 1 no longer reach broker 3's live subscriber *)
+(* F7: broker 3 sees broker 2 go away while broker 2's client is subscribed to channel 1, and the
+   connection comes back (full-state exchange).  Swarm.onPeerOffline drops the member and its trie
+   entries; the member is only created again by a payload that changes one of that peer's entries -
+   the full state brings nothing new about broker 2, so broker 3 keeps not forwarding channel 1 to
+   broker 2 although its subscriber is still there.  (The tombstone onPeerOffline writes lands under
+   broker 3's own name, because NotifyUnsubscribe overwrites the event's peer: garbage entries that
+   no longer harm since Swarm.merge counts transitions of the merged state.) *)
+Definition drain3 : list ev := [EDeliver 1 2; EDeliver 1 3; EDeliver 2 1; EDeliver 2 3; EDeliver 3 1; EDeliver 3 2].
 Definition f7_schedule : list ev :=
   [ESub 3 4 1 1040; EDeliver 3 1; EDeliver 3 2; ESub 2 2 1 1050; EDeliver 2 3; EDeliver 2 1;
-   EOffline 3 2 1080; EGossip 3 1; EDeliver 3 1].
-Theorem C05_offline_tombstone_refuted :
-  let w := run [1; 2; 3] (f7_schedule ++ [EDeliver 1 2; EDeliver 2 3; EDeliver 3 1; EDeliver 1 2]) in
-  quiet w = true /\ bk_remote (get_broker w 1) = [(1, 2)]
-  /\ receivers w 1 1 = [(2, 2)] /\ live_subscribers w 1 = [(2, 2); (3, 4)].
+   EOffline 3 2 1080; EOnline 3 2] ++ drain3 ++ drain3 ++ drain3.
+Theorem C05_returning_peer_refuted :
+  let w := run [1; 2; 3] f7_schedule in
+  quiet w = true /\ bk_remote (get_broker w 3) = []
+  /\ receivers w 3 1 = [(3, 4)] /\ live_subscribers w 1 = [(2, 2); (3, 4)].
 Proof. vm_compute. repeat split. Qed.
